@@ -1,30 +1,170 @@
-(* Runs the extracted model on the request lines the Rust driver also gets. *)
+(* Runs the extracted model on the request lines the Rust drivers also get. *)
 open Model
 open Conv
 
 let split_tab s = String.split_on_char '\t' s
 
-let pretty cfg args =
+(* ---------- grammar reader ---------- *)
+let name_of_atom a =
+  if String.length a >= 2 && String.sub a 0 2 = "n:" then unhex (String.sub a 2 (String.length a - 2))
+  else failwith ("bad name atom " ^ a)
+
+let num a = n_of_int (int_of_string a)
+let onum a = if a = "-" then None else Some (num a)
+
+let item = function
+  | Sexp.List [Sexp.Atom "hexa"; Sexp.Atom a; Sexp.Atom b] -> SIHexa (num a, num b)
+  | Sexp.List [Sexp.Atom "simple"; Sexp.Atom k] ->
+    SISimple (match k with
+        | "backslash" -> EscBackslash | "cr" -> EscCarriageReturn | "dquote" -> EscDQuote
+        | "nl" -> EscNewline | "quote" -> EscQuote | "tab" -> EscTab | _ -> failwith "simple")
+  | Sexp.List [Sexp.Atom "utf8"; Sexp.Atom a; Sexp.Atom b; Sexp.Atom c; Sexp.Atom d; Sexp.Atom e; Sexp.Atom f] ->
+    SIUtf8 (num a, onum b, onum c, onum d, onum e, onum f)
+  | Sexp.List [Sexp.Atom "char"; Sexp.Atom a] -> SIChar (num a)
+  | _ -> failwith "item"
+
+let rec expr = function
+  | Sexp.List (Sexp.Atom "choice" :: l) -> EChoice (List.map expr l)
+  | Sexp.List (Sexp.Atom "seq" :: l) -> ESeq (List.map expr l)
+  | Sexp.List [Sexp.Atom "group"; b] -> EGroup (expr b)
+  | Sexp.List [Sexp.Atom "opt"; b] -> EOptional (expr b)
+  | Sexp.List [Sexp.Atom "closure"; b; Sexp.Atom p] -> EClosure (expr b, p = "1")
+  | Sexp.List [Sexp.Atom "neg"; b] -> ENeg (expr b)
+  | Sexp.List [Sexp.Atom "pos"; b] -> EPos (expr b)
+  | Sexp.List [Sexp.Atom "range"; a; b] -> ERange (item a, item b)
+  | Sexp.List (Sexp.Atom "lit" :: Sexp.Atom i :: l) -> ELit (i = "1", List.map item l)
+  | Sexp.List [Sexp.Atom "eoi"] -> EEoi
+  | Sexp.List [Sexp.Atom "include"; Sexp.Atom n] -> EInclude (name_of_atom n)
+  | Sexp.List [Sexp.Atom "field"; fn; Sexp.Atom b; Sexp.Atom t] ->
+    let f = match fn with
+      | Sexp.Atom "none" -> FNone
+      | Sexp.Atom "override" -> FOverride
+      | Sexp.List [Sexp.Atom "named"; Sexp.Atom n] -> FNamed (name_of_atom n)
+      | _ -> failwith "field name" in
+    EField (f, b = "1", name_of_atom t)
+  | _ -> failwith "expr"
+
+let path = function
+  | Sexp.List l -> List.map (function Sexp.Atom a -> name_of_atom a | _ -> failwith "path") l
+  | _ -> failwith "path"
+
+let directive = function
+  | Sexp.Atom "string" -> DString | Sexp.Atom "no_skip_ws" -> DNoSkipWs | Sexp.Atom "export" -> DExport
+  | Sexp.Atom "position" -> DPosition | Sexp.Atom "memoize" -> DMemoize | Sexp.Atom "leftrec" -> DLeftrec
+  | Sexp.List [Sexp.Atom "check"; p] -> DCheck (path p)
+  | _ -> failwith "directive"
+
+let grule = function
+  | Sexp.List [Sexp.Atom "rule"; Sexp.List (Sexp.Atom "dirs" :: ds); Sexp.Atom n; e] ->
+    GRule { r_directives = List.map directive ds; r_name = name_of_atom n; r_def = expr e }
+  | Sexp.List [Sexp.Atom "charrule"; Sexp.List (Sexp.Atom "checks" :: cs); Sexp.Atom n; Sexp.List (Sexp.Atom "parts" :: ps)] ->
+    let part = function
+      | Sexp.List [Sexp.Atom "cchar"; i] -> CPChar (item i)
+      | Sexp.List [Sexp.Atom "crange"; a; b] -> CPRange (item a, item b)
+      | Sexp.List [Sexp.Atom "cident"; Sexp.Atom n] -> CPIdent (name_of_atom n)
+      | _ -> failwith "char part" in
+    GChar { cr_checks = List.map path cs; cr_name = name_of_atom n; cr_choices = List.map part ps }
+  | Sexp.List [Sexp.Atom "extern"; f; r; Sexp.Atom n] ->
+    GExtern { er_function = path f;
+              er_return = (match r with Sexp.Atom "noret" -> None | p -> Some (path p));
+              er_name = name_of_atom n }
+  | _ -> failwith "grule"
+
+let grammar_of_sexp = function
+  | Sexp.List (Sexp.Atom "grammar" :: rs) -> List.map grule rs
+  | _ -> failwith "grammar"
+
+(* ---------- printers ---------- *)
+let spec_str = function
+  | ExpectedAnyCharacter -> "any"
+  | ExpectedCharacter c -> Printf.sprintf "char:%d" (int_of_n c)
+  | ExpectedCharacterRange (a, b) -> Printf.sprintf "range:%d:%d" (int_of_n a) (int_of_n b)
+  | ExpectedString s -> "str:" ^ hex s
+  | ExpectedCharacterClass n -> "class:" ^ hex n
+  | ExpectedEoi -> "eoi"
+  | NegativeLookaheadFailed -> "neg"
+  | CheckFunctionFailed f -> "check:" ^ hex f
+  | ExternRuleFailed m -> "extern:" ^ hex m
+  | LeftRecursionSentinel -> "sentinel"
+  | OtherError -> "other"
+
+let rec value_str v =
+  match v with
+  | VUnit -> "()"
+  | VChar c -> Printf.sprintf "(c %d)" (int_of_n c)
+  | VStr s -> Printf.sprintf "(s %s)" (hex s)
+  | VNum n -> Printf.sprintf "(n %d)" (int_of_n n)
+  | VNone -> "none"
+  | VSome v -> Printf.sprintf "(some %s)" (value_str v)
+  | VList l -> "(list" ^ String.concat "" (List.map (fun x -> " " ^ value_str x) l) ^ ")"
+  | VEnum (n, v) -> Printf.sprintf "(enum %s %s)" (hex n) (value_str v)
+  | VStruct (n, fs, pos) ->
+    "(struct " ^ hex n
+    ^ String.concat "" (List.map (fun (f, x) -> Printf.sprintf " (f %s %s)" (hex f) (value_str x)) fs)
+    ^ (match pos with Some (a, b) -> Printf.sprintf " (pos %d %d)" (int_of_nat a) (int_of_nat b) | None -> "")
+    ^ ")"
+
+let trace_str (t : tev list) =
+  String.concat ";" (List.rev_map (function
+      | TStart (n, o) -> Printf.sprintf "S:%s:%d" (hex n) (int_of_nat o)
+      | TResOk o -> Printf.sprintf "O:%d" (int_of_nat o)
+      | TResErr e -> Printf.sprintf "E:%d:%s" (int_of_nat e.e_pos) (spec_str e.e_spec)
+      | TInfo k -> Printf.sprintf "I:%d" (int_of_nat k)) t)
+
+let ulog_str (u : ustate) =
+  String.concat ";" (List.rev_map (fun (n, k) -> Printf.sprintf "%s:%d" (hex n) (int_of_nat k)) u.u_log)
+
+let panic_str = function
+  | PanicIndex -> "index" | PanicSplit -> "split" | PanicShape -> "shape"
+  | PanicUncompilable -> "uncompilable" | PanicUndefinedRule -> "undefined-rule"
+
+let grammars : (Stdlib.String.t, grammar) Hashtbl.t = Hashtbl.create 64
+
+let do_parse args =
+  match args with
+  | gid :: rule :: input :: _ ->
+    let g = Hashtbl.find grammars gid in
+    let inp = unhex input in
+    let rec attempt fuel =
+      let (res, gl) = m_parse_std g (nat_of_int fuel) (unhex rule) inp u_init in
+      match res with
+      | MFuel -> if fuel < 40000 then attempt (fuel * 8) else "FUEL"
+      | MPanic p -> "PANIC\t" ^ panic_str p
+      | MOk (v, _) ->
+        Printf.sprintf "OK\t%s\t%s\t%s\t%s" (value_str v) (trace_str gl.g_trace) (ulog_str gl.g_user)
+          (String.concat ";" (List.rev_map (fun (n, k) -> Printf.sprintf "%s:%d" (hex n) (int_of_nat k)) gl.g_evals))
+      | MErr e ->
+        Printf.sprintf "ERR\t%d\t%s\t%s\t%s\t%s" (int_of_nat e.e_pos) (spec_str e.e_spec) (trace_str gl.g_trace)
+          (ulog_str gl.g_user)
+          (String.concat ";" (List.rev_map (fun (n, k) -> Printf.sprintf "%s:%d" (hex n) (int_of_nat k)) gl.g_evals))
+    in
+    attempt (300 + 40 * List.length inp)
+  | _ -> "BADARGS"
+
+let pretty args =
   match args with
   | [text; pos; _] ->
-    (match from_parse_error cfg (unhex text) (nat_of_int (int_of_string pos)) with
+    (match pretty_exec (unhex text) (nat_of_int (int_of_string pos)) with
      | PPanic -> "PANIC"
      | PShown (l, c, s) -> Printf.sprintf "OK\t%d\t%d\t%s" (int_of_nat l) (int_of_nat c) (hex s))
   | _ -> "BADARGS"
 
 let () =
-  let pcfg = ref cfg_fixed in
   (try
      while true do
        let line = input_line stdin in
        let resp =
-         match split_tab line with
-         | "pretty_cfg" :: [a; b; c] ->
-           pcfg := { iter_stop_ge = (a = "1"); find_end_ge = (b = "1"); col_by_position = (c = "1") };
-           "SET"
-         | "pretty" :: args -> pretty !pcfg args
-         | other :: _ -> "UNKNOWN\t" ^ other
-         | [] -> "EMPTY"
+         try
+           match split_tab line with
+           | "pretty" :: args -> pretty args
+           | ["grammar"; gid; sx] -> Hashtbl.replace grammars gid (grammar_of_sexp (Sexp.parse sx)); "SET"
+           | "parse" :: args -> do_parse args
+           | other :: _ -> "UNKNOWN\t" ^ other
+           | [] -> "EMPTY"
+         with
+         | Stack_overflow -> "STACKOVERFLOW"
+         | Failure m -> "FAILURE\t" ^ m
+         | Not_found -> "NOTFOUND"
        in
        print_endline resp
      done
